@@ -35,15 +35,21 @@ example : (Writer.flush 10 { buf := [1, 2, 3], next := some (.data []) } [] []).
 @[simp] theorem put_maxFrame (w : Writer) (bs : Bytes) : (w.put bs).maxFrame = w.maxFrame := rfl
 @[simp] theorem put_chainThreshold (w : Writer) (bs : Bytes) : (w.put bs).chainThreshold = w.chainThreshold := rfl
 
+@[simp] theorem putLimited_buf (w : Writer) (bs : Bytes) : (w.putLimited bs).buf = w.buf ++ bs := rfl
+@[simp] theorem putLimited_next (w : Writer) (bs : Bytes) : (w.putLimited bs).next = w.next := rfl
+@[simp] theorem putLimited_maxFrame (w : Writer) (bs : Bytes) : (w.putLimited bs).maxFrame = w.maxFrame := rfl
+@[simp] theorem putLimited_chainThreshold (w : Writer) (bs : Bytes) :
+    (w.putLimited bs).chainThreshold = w.chainThreshold := rfl
+
 -- ===================================================================== header frames
 
 theorem putHeaderFrame_eq (w : Writer) (kind flags sid : Nat) (pre hpack : Bytes) :
     w.putHeaderFrame kind flags sid pre hpack =
       if hpack.length > w.maxFrame - pre.length then
-        { (w.put ((Head.mk kind (flags - 4) sid).encode (pre.length + (w.maxFrame - pre.length)) ++ pre ++
+        { (w.putLimited ((Head.mk kind (flags - 4) sid).encode (pre.length + (w.maxFrame - pre.length)) ++ pre ++
             hpack.take (w.maxFrame - pre.length))) with
           next := some (.continuation sid (hpack.drop (w.maxFrame - pre.length))) }
-      else w.put ((Head.mk kind flags sid).encode (pre.length + hpack.length) ++ pre ++ hpack) := rfl
+      else w.putLimited ((Head.mk kind flags sid).encode (pre.length + hpack.length) ++ pre ++ hpack) := rfl
 
 theorem pending_putHeaderFrame (w : Writer) (kind flags sid : Nat) (pre hpack : Bytes)
     (hn : w.next = none) (hpre : pre.length < w.maxFrame) :
@@ -53,13 +59,13 @@ theorem pending_putHeaderFrame (w : Writer) (kind flags sid : Nat) (pre hpack : 
   simp only [splitBlock]
   split
   · rename_i hgt
-    simp only [pendingBytes, put_buf, put_maxFrame, nextBytes, List.append_assoc]
+    simp only [pendingBytes, putLimited_buf, putLimited_maxFrame, nextBytes, List.append_assoc]
     congr 4
     apply splitBlock_fuel
     · simpa using by omega
     · omega
     · simp only [List.length_drop]; omega
-  · simp only [pendingBytes, put_buf, put_next, hn, nextBytes, List.append_nil, List.append_assoc]
+  · simp only [pendingBytes, putLimited_buf, putLimited_next, hn, nextBytes, List.append_nil, List.append_assoc]
 
 theorem putHeaderFrame_maxFrame (w : Writer) (kind flags sid : Nat) (pre hpack : Bytes) :
     (w.putHeaderFrame kind flags sid pre hpack).maxFrame = w.maxFrame := by
@@ -74,7 +80,7 @@ theorem putHeaderFrame_WF (w : Writer) (kind flags sid : Nat) (pre hpack : Bytes
   rw [putHeaderFrame_eq]; unfold WF
   split
   · intro rest h; cases h
-  · intro rest h; rw [put_next, hn] at h; cases h
+  · intro rest h; rw [putLimited_next, hn] at h; cases h
 
 theorem putHeaderFrame_buf_ne (w : Writer) (kind flags sid : Nat) (pre hpack : Bytes) :
     (w.putHeaderFrame kind flags sid pre hpack).buf ≠ [] := by
@@ -86,7 +92,7 @@ theorem putHeaderFrame_next_not_data (w : Writer) (kind flags sid : Nat) (pre hp
   rw [putHeaderFrame_eq]
   split
   · intro h; cases h
-  · rw [put_next, hn]; intro h; cases h
+  · rw [putLimited_next, hn]; intro h; cases h
 
 -- ===================================================================== one iteration of `flush`
 
